@@ -196,8 +196,9 @@ class Multiprocessor(Filter[Iterable[Any], Iterable[Any]]):
             out_queue = spawn_context.Queue()
             in_put    = QueueSink(in_queue,foreach=True)
             in_get    = QueueSource(in_queue) #make one of these for each process??
+            out_poison = UniqueKey() #the outputs aren't pickled so None, a legitimate output, can't be their poison pill
             out_put   = QueueSink(out_queue,foreach=True)
-            out_get   = QueueSource(out_queue)
+            out_get   = QueueSource(out_queue,poison=out_poison)
             pickler   = Pickler()
             unpickler = Unpickler()
             get_max   = Slice(None,self._maxtasksperchild)
@@ -240,7 +241,7 @@ class Multiprocessor(Filter[Iterable[Any], Iterable[Any]]):
                         self._n_procs -= 1
                         if self._n_procs == 0:
                             try:
-                                out_put.write([self._poison])
+                                out_put.write([out_poison])
                             except ValueError: #pragma: no cover
                                 pass
 
